@@ -38,7 +38,8 @@ def strategy(names):
             n = len(pre) + len(ins)
             qual = ''.join(chr(33 + q) for q in draw(st.lists(st.integers(0, 51), min_size=n, max_size=n)))
             reads.append({'pre': pre, 'ins': ins, 'qual': qual})
-        return {'tx': name == 'DamAndT' and draw(st.integers(0, 2)) == 0, 'strategy': name, 'exact_prefix': draw(st.sampled_from([None, None, None, None, 0, 1, 'both'])), 'bc_idx': draw(st.integers(0, 10 ** 6)), 'mismatch': draw(st.sampled_from([None, None, None, 0, 3, 7])),
+        return {'via_file': draw(st.sampled_from([None, None, None, None, None, None, True, False])),
+                'tx': name == 'DamAndT' and draw(st.integers(0, 2)) == 0, 'strategy': name, 'exact_prefix': draw(st.sampled_from([None, None, None, None, 0, 1, 'both'])), 'bc_idx': draw(st.integers(0, 10 ** 6)), 'mismatch': draw(st.sampled_from([None, None, None, 0, 3, 7])),
                 'hd': draw(st.sampled_from([0, 0, 1])), 'reads': reads, 'motif': motif, 'motif_pos': draw(st.integers(0, 40)),
                 'perturb': draw(st.lists(st.tuples(st.integers(0, 1), st.integers(0, 120), st.sampled_from('ACGT'), st.integers(0, 51)), min_size=3, max_size=3)),
                 'serial': draw(st.integers(1, 99999)), 'index': draw(st.integers(0, 10 ** 6))}
@@ -151,6 +152,28 @@ def eval_case(case):
     if records is None:
         return out.label('skipped:%s' % meta)
     s = meta['strategy']
+    if case.get('via_file') is not None:
+        # the pair reaches the strategy the way demux.py feeds it: written to FASTQ files (the last line with or without a
+        # terminating newline) and read back by the toolkit's FastqIterator
+        import os
+        from singlecellmultiomics.fastqProcessing.fastqIterator import FastqIterator
+        paths = []
+        for m, r in enumerate(records):
+            pth = os.path.join(scratch_dir(), 'c02_%d_R%d.fastq' % (os.getpid(), m + 1))
+            txt = '%s\n%s\n+\n%s\n' % (r.header, r.sequence, r.qual)
+            with open(pth, 'w') as f:
+                f.write(txt if case['via_file'] else txt[:-1])
+            paths.append(pth)
+        try:
+            got = list(FastqIterator(*paths))
+        finally:
+            for pth in paths:
+                os.remove(pth)
+        if len(got) != 1 or any(g.sequence != r.sequence or g.qual != r.qual for g, r in zip(got[0], records)):
+            return out.bad('file-reader-changes-the-record', 'written %r, read back %r' % (
+                [(r.sequence[-8:], r.qual[-8:]) for r in records], [[(g.sequence[-8:], g.qual[-8:]) for g in t] for t in got][:2]))
+        records = list(got[0])
+        out.label('through FastqIterator')
     try:
         tagged, why = run(s, records)
     except Exception as e:
